@@ -17,8 +17,10 @@ import (
 	"fmt"
 	"hash/fnv"
 	"io"
+	"math"
 	"sort"
 	"strconv"
+	"strings"
 	"sync"
 
 	"github.com/ecodeclub/ekit/sqlx"
@@ -144,4 +146,149 @@ func concMain(w io.Writer, args []string) {
 	}
 	fmt.Fprintf(w, "conc g=%d n=%d mode=%s total=%d errors=%d dup_nonces=%d dup_stored=%d first=%s at=%s sample=%s\n",
 		G, N, mode, len(all), nerr, dupN, dupS, first, at, sample)
+}
+
+// ---------- concurrent Value()/Scan() with per-goroutine verification ----------
+//
+//	h c18 concv <goroutines> <iterations>
+//
+// Every goroutine owns ONE numeric type and a stream of distinct values of it (goroutine g: type g mod 12).  All
+// goroutines are released together and, per iteration: Value(); the harness decrypts the result itself (crypto/aes +
+// GCM) and compares the plaintext with the big-endian encoding of THIS goroutine's value (computed here by shifts,
+// independently of encoding/binary); then Scan() into a fresh column must give Valid = true and the value back.
+// Output: `rec <ty> <val> h<pt>` lines (a sample, re-checked by checks/c18.py against its big-integer codec oracle,
+// which is itself compared with the model's encode_num on every run) and one summary line
+//
+//	concv g=<G> n=<N> total=<calls> errors=<e> bad_pt=<k> bad_scan=<k> first=<ty>:<val>:<expected>:<decrypted>:<scan> at=<g>/<i>
+type vstat struct {
+	calls, errs, badPt, badScan int
+	first, at                   string
+	recs                        []string
+}
+
+func beBytes(bits uint64, width int) []byte {
+	out := make([]byte, width)
+	for k := 0; k < width; k++ {
+		out[width-1-k] = byte(bits >> (8 * k))
+	}
+	return out
+}
+
+func lcg(x uint64) uint64 { return x*6364136223846793005 + 1442695040888963407 }
+
+func verifyWorker[T comparable](ty string, g, n int, key string, width int, mk func(uint64) T, bits func(T) uint64,
+	show func(T) string, start *sync.WaitGroup, st *vstat) {
+	x := lcg(uint64(g)*7919 + 1)
+	start.Wait()
+	for i := 0; i < n; i++ {
+		x = lcg(x)
+		v := mk(x >> 7)
+		func() {
+			defer func() {
+				if r := recover(); r != nil {
+					st.errs++
+				}
+			}()
+			st.calls++
+			dv, err := sqlx.EncryptColumn[T]{Val: v, Valid: true, Key: key}.Value()
+			stored, isBytes := dv.([]byte)
+			if err != nil || !isBytes {
+				st.errs++
+				return
+			}
+			want := beBytes(bits(v), width)
+			pt, okOpen := ownOpen(key, stored)
+			ptOK := okOpen && string(pt) == string(want)
+			dst := &sqlx.EncryptColumn[T]{Key: key}
+			serr := dst.Scan(stored)
+			// floats: compare bit patterns (NaN != NaN)
+			scanOK := serr == nil && dst.Valid && bits(dst.Val) == bits(v)
+			if !ptOK {
+				st.badPt++
+			}
+			if !scanOK {
+				st.badScan++
+			}
+			if (!ptOK || !scanOK) && st.first == "" {
+				dec := "authfail"
+				if okOpen {
+					dec = hex.EncodeToString(pt)
+				}
+				st.first = fmt.Sprintf("%s:%s:%s:%s:%s/val=%s/valid=%s", ty, show(v), hex.EncodeToString(want), dec,
+					classify(serr), show(dst.Val), b01(dst.Valid))
+				st.first = strings.ReplaceAll(st.first, " ", "_")
+				st.at = fmt.Sprintf("%d/%d", g, i)
+			}
+			if okOpen && (i < 6 || !ptOK) && len(st.recs) < 40 {
+				st.recs = append(st.recs, fmt.Sprintf("rec %s %s h%s", ty, show(v), hex.EncodeToString(pt)))
+			}
+		}()
+	}
+}
+
+func concvMain(w io.Writer, args []string) {
+	if len(args) < 2 {
+		fmt.Fprintln(w, "badcase usage: concv <goroutines> <iterations>")
+		return
+	}
+	G, _ := strconv.Atoi(args[0])
+	N, _ := strconv.Atoi(args[1])
+	key := "0123456789abcdef01234567"
+	stats := make([]vstat, G)
+	var start, done sync.WaitGroup
+	start.Add(1)
+	f32 := func(v float32) uint64 { return uint64(math.Float32bits(v)) }
+	for g := 0; g < G; g++ {
+		done.Add(1)
+		go func(g int) {
+			defer done.Done()
+			st := &stats[g]
+			switch g % 12 {
+			case 0:
+				verifyWorker("i64", g, N, key, 8, func(x uint64) int64 { return int64(x * 0x9E3779B97F4A7C15) }, func(v int64) uint64 { return uint64(v) }, sInt[int64], &start, st)
+			case 1:
+				verifyWorker("u16", g, N, key, 2, func(x uint64) uint16 { return uint16(x) }, func(v uint16) uint64 { return uint64(v) }, sUint[uint16], &start, st)
+			case 2:
+				verifyWorker("int", g, N, key, 8, func(x uint64) int { return int(int64(x * 0xD1B54A32D192ED03)) }, func(v int) uint64 { return uint64(int64(v)) }, sInt[int], &start, st)
+			case 3:
+				verifyWorker("f64", g, N, key, 8, func(x uint64) float64 { return math.Float64frombits(x * 0x9E3779B97F4A7C15) }, math.Float64bits,
+					func(v float64) string { return strconv.FormatUint(math.Float64bits(v), 10) }, &start, st)
+			case 4:
+				verifyWorker("i8", g, N, key, 1, func(x uint64) int8 { return int8(x) }, func(v int8) uint64 { return uint64(uint8(v)) }, sInt[int8], &start, st)
+			case 5:
+				verifyWorker("u32", g, N, key, 4, func(x uint64) uint32 { return uint32(x) }, func(v uint32) uint64 { return uint64(v) }, sUint[uint32], &start, st)
+			case 6:
+				verifyWorker("uint", g, N, key, 8, func(x uint64) uint { return uint(x * 0x9E3779B97F4A7C15) }, func(v uint) uint64 { return uint64(v) }, sUint[uint], &start, st)
+			case 7:
+				verifyWorker("i16", g, N, key, 2, func(x uint64) int16 { return int16(x) }, func(v int16) uint64 { return uint64(uint16(v)) }, sInt[int16], &start, st)
+			case 8:
+				verifyWorker("f32", g, N, key, 4, func(x uint64) float32 { return math.Float32frombits(uint32(x)) }, f32,
+					func(v float32) string { return strconv.FormatUint(uint64(math.Float32bits(v)), 10) }, &start, st)
+			case 9:
+				verifyWorker("u64", g, N, key, 8, func(x uint64) uint64 { return x * 0xD1B54A32D192ED03 }, func(v uint64) uint64 { return v }, sUint[uint64], &start, st)
+			case 10:
+				verifyWorker("i32", g, N, key, 4, func(x uint64) int32 { return int32(x) }, func(v int32) uint64 { return uint64(uint32(v)) }, sInt[int32], &start, st)
+			default:
+				verifyWorker("u8", g, N, key, 1, func(x uint64) uint8 { return uint8(x) }, func(v uint8) uint64 { return uint64(v) }, sUint[uint8], &start, st)
+			}
+		}(g)
+	}
+	start.Done()
+	done.Wait()
+	tot := vstat{first: "-", at: "-"}
+	for g := range stats {
+		s := &stats[g]
+		tot.calls += s.calls
+		tot.errs += s.errs
+		tot.badPt += s.badPt
+		tot.badScan += s.badScan
+		if s.first != "" && tot.first == "-" {
+			tot.first, tot.at = s.first, s.at
+		}
+		for _, r := range s.recs {
+			fmt.Fprintln(w, r)
+		}
+	}
+	fmt.Fprintf(w, "concv g=%d n=%d total=%d errors=%d bad_pt=%d bad_scan=%d first=%s at=%s\n",
+		G, N, tot.calls, tot.errs, tot.badPt, tot.badScan, tot.first, tot.at)
 }
